@@ -8,3 +8,7 @@ import Adsg.Props.C20
 #print axioms Adsg.C20.resolve_rejects_missing_case
 #print axioms Adsg.C20.resolve_nested_irrelevant
 #print axioms Adsg.C20.mapsWF_iff
+#print axioms Adsg.C20.resolve_some_iff
+#print axioms Adsg.C20.resolve_none_iff
+#print axioms Adsg.C20.mapTarget_congr
+#print axioms Adsg.C20.resolve_depends_only_on_mapped
